@@ -1,6 +1,7 @@
 pub mod common;
 pub mod conformance;
 pub mod c01;
+pub mod c02;
 pub mod c03;
 pub mod c06;
 pub mod c08;
@@ -22,6 +23,7 @@ use crate::pred::*;
 pub fn dispatch(ctx: &Ctx) -> bool {
     match ctx.property.as_str() {
         "C01" => c01::run(ctx),
+        "C02" => c02::run(ctx),
         "C03" => c03::run(ctx),
         "C06" => c06::run(ctx),
         "C08" => c08::run(ctx),
